@@ -26,7 +26,7 @@ DTS = ['int', 'uint', 'float', 'bool', 'obj', 'mapper']
 TRACE_CFG = dict(Indices=set(), Tails=set(), MapKeys=set(), IntVals=set(), DataTypes=set(),
                  Defaults=set(), MaxSteps=0, CountSteps=False, KeepHist=False)
 INVARIANTS = ['TypeOK', 'RetEqualsModel', 'ReAddFresh', 'Refines', 'AllocatorFresh',
-              'DeclaredType']
+              'DeclaredType', 'GrowLoopIsExtend']
 PROPERTIES = ['Isolation', 'GrowthCleared']
 COMMON_ACTIONS = ['AddKey', 'DelKey', 'Clear', 'IsCleared', 'IsSet', 'Iterate']
 VALUE_ACTIONS = ['Get', 'Set']
@@ -139,7 +139,7 @@ class ManagerApi(object):
 def run_direct(dtn, data_type, default, calls):
     """the call sequence on a plain rxsci.state.MemoryStore"""
     import rxsci.state as st
-    enc = RS.Encoder()
+    enc = RS.Encoder(mapper=dtn == 'mapper')
     dflt = dict(RS.NONE) if default is None else enc.value(default)
     store = st.MemoryStore(name='direct', data_type=data_type, default_value=default)
     return {'dt': dtn, 'dflt': dflt, 'calls': drive(store, calls, enc, st.markers.STATE_NOTSET)}
@@ -164,7 +164,7 @@ def run_manager(dtn, data_type, default, calls):
         sid = topo.create_state('target', data_type, default)
     topo.create_state('target', data_type if dtn != 'mapper' else int, default)
     mgr.set_topology(topo)
-    enc = RS.Encoder()
+    enc = RS.Encoder(mapper=dtn == 'mapper')
     dflt = dict(RS.NONE) if default is None else enc.value(default)
     seen = drive(ManagerApi(mgr, sid), calls, enc, st.markers.STATE_NOTSET)
     traces = RS.to_traces(log)
@@ -367,9 +367,23 @@ def nontrivial(tr):
 
 
 def validate(traces):
-    return C.validate_traces('StoreTrace', [for_tlc(t) for t in traces], jvm=JVM, chunk=250,
-                             cfg_text=C.cfg(spec='TraceSpec', constants=TRACE_CFG,
-                                            invariants=['TraceInvariants']))
+    """TLC judges every distinct recorded call sequence once"""
+    uniq, order = {}, []
+    for t in traces:
+        key = C.json.dumps(for_tlc(t), sort_keys=True)
+        if key not in uniq:
+            uniq[key] = len(order)
+            order.append(for_tlc(t))
+        t['_u'] = uniq[key]
+    order_ix = sorted(range(len(order)), key=lambda j: -len(order[j]['calls']))   # balance chunks
+    nchunks = max(1, min(C.NCPU, len(order) // 40))
+    sched = [j for c in range(nchunks) for j in order_ix[c::nchunks]]
+    verdicts, stats = C.validate_traces(
+        'StoreTrace', [order[j] for j in sched], jvm=JVM, chunk=-(-len(sched) // nchunks),
+        cfg_text=C.cfg(spec='TraceSpec', constants=TRACE_CFG, invariants=['TraceInvariants']))
+    by_u = {j: v for j, v in zip(sched, verdicts)}
+    stats['distinct_traces'] = len(order)
+    return [by_u[t.pop('_u')] for t in traces], stats
 
 
 def make_trace(gen):
@@ -452,14 +466,11 @@ def main(tier, replay):
     # 2. behaviour generation (runs concurrently with model checking)
     tiny = dict(Indices={0, 2}, Tails={0}, MapKeys={0}, IntVals={1}, MaxSteps=4 if thorough else 3,
                 CountSteps=True, KeepHist=True)
-    gens = []
-    for dtn, dfl in [('int', {0}), ('uint', {99}), ('float', {99}), ('bool', {1}), ('obj', {99}),
-                     ('mapper', {99}), ('bool', {99}), ('int', {99})]:
-        gens.append((dict(tiny, DataTypes={dtn}, Defaults=dfl), None))
+    gens = [(dict(tiny, DataTypes=set(DTS), Defaults={99, 0, 1}), None)]
     if thorough:
         gens.append((dict(tiny, Indices={0, 1, 3}, MapKeys={0, 1}, MaxSteps=4, DataTypes={'mapper'},
                           Defaults={99}), None))
-    nsim = 4000 if thorough else 700
+    nsim = 3000 if thorough else 300
     simc = dict(Indices={0, 1, 2, 3}, Tails={0, 1}, MapKeys={0, 1}, IntVals={1, 2},
                 DataTypes=set(DTS), Defaults={99, 0, 1, 2}, MaxSteps=14, CountSteps=True,
                 KeepHist=True)
@@ -493,7 +504,7 @@ def main(tier, replay):
     V.phase('model checking + behaviour generation')
 
     rng_gen = random.Random(C.seed() + 1414)
-    cap = 2500 if thorough else 260
+    cap = 12000 if thorough else 900
     behaviours = []
     gen_counts = []
     for (b, exhaustive, const) in results[len(jobs):]:
